@@ -51,6 +51,7 @@ let rec p_expr () : expr =
   | "X" -> EExt (match next () with "r" -> XRand1 | "t" -> XTimePos | t -> raise (Parse t))
   | "D" -> EDel (bytes_of_hex (next ()))
   | "K" -> ECatchErr (p_expr ())
+  | "Z" -> raise (Parse "opaque")      (* raw grol source outside the model's language: the whole case is SKIPped *)
   | t -> raise (Parse t)
 
 let p_def () : fdef =
